@@ -33,13 +33,16 @@ pub struct Faults {
     pub stale_delivery: f64,
     pub adversary: f64,
     pub chain_down: f64,
+    /// operator restarts the aggregator with other protocol parameters in its configuration
+    #[serde(default)]
+    pub reconfig: f64,
 }
 
 impl Faults {
     pub fn any(&self) -> bool {
         self.drop + self.dup + self.corrupt + self.restart + self.expire + self.lag + self.epoch_jump
             + self.partial_registration + self.reregister + self.early_sign + self.stale_delivery
-            + self.adversary + self.chain_down > 0.0
+            + self.adversary + self.chain_down + self.reconfig > 0.0
     }
 }
 
@@ -110,6 +113,8 @@ pub enum Event {
     Drop { id: u32 },
     Expire,
     Restart,
+    /// operator action: restart with these protocol parameters in the configuration file
+    Reconfigure { k: u64, m: u64, phi_f: f64 },
     Genesis,
     Forge { id: u32, from: u32, kind: ForgeKind, as_party: usize },
     /// C15: the aggregator's next DB statement number `statement` (counted from this event on)
@@ -157,6 +162,7 @@ impl Event {
             Event::Drop { .. } => "drop",
             Event::Expire => "expire",
             Event::Restart => "restart",
+            Event::Reconfigure { .. } => "reconfigure",
             Event::Genesis => "genesis",
             Event::Forge { .. } => "forge",
             Event::ArmDbFault { crash, .. } => {
@@ -269,6 +275,9 @@ pub struct World {
     pub link: std::sync::Arc<LinkShared>,
     pub signer_ticks: Vec<(usize, usize, String, Option<String>)>,
     pub quiescence_register_attempts: BTreeMap<(usize, u64), u32>,
+    /// protocol parameters the (light) signers learned from the aggregator's
+    /// `/protocol-configuration/{epoch}` route, by epoch-settings index
+    pub learned_params: BTreeMap<u64, ProtocolParameters>,
 }
 
 /// State of the statement-level fault hook (C15).
@@ -398,6 +407,7 @@ impl World {
             link,
             signer_ticks: vec![],
             quiescence_register_attempts: BTreeMap::new(),
+            learned_params: BTreeMap::new(),
         }
     }
 
@@ -455,6 +465,33 @@ impl World {
             self.signers.push(node);
         }
         Ok(())
+    }
+
+    /// Protocol parameters stored by the aggregator under epoch-settings index `index` (raw row).
+    pub fn stored_parameters(&self, index: u64) -> Option<ProtocolParameters> {
+        let db = self.db()?;
+        db.epoch_settings().into_iter().find(|(i, _)| *i == index).and_then(|(_, json)| serde_json::from_str(&json).ok())
+    }
+
+    /// What a registering signer uses: the parameters the aggregator serves for the recording
+    /// epoch; when it cannot be asked (down, not published yet) the most recent ones it knows.
+    fn registration_parameters(&mut self, recording_epoch: u64) -> ProtocolParameters {
+        if self.agg.is_up() {
+            let (status, body) = self.agg.http("GET", &format!("/aggregator/protocol-configuration/{recording_epoch}"), None);
+            if status == 200
+                && let Ok(v) = serde_json::from_str::<serde_json::Value>(&body)
+                && let Ok(p) = serde_json::from_value::<ProtocolParameters>(v["protocol_parameters"].clone())
+            {
+                self.learned_params.insert(recording_epoch, p.clone());
+                return p;
+            }
+            self.hit("probe_registration_parameters_not_served");
+        }
+        self.learned_params
+            .range(..=recording_epoch)
+            .next_back()
+            .map(|(_, p)| p.clone())
+            .unwrap_or_else(|| self.sc.parameters())
     }
 
     fn sync_signer_view(&mut self, party: usize) {
@@ -659,7 +696,7 @@ impl World {
                 }
                 let recording_epoch = self.epoch + 1;
                 let stake = stake_for(&self.sc, *party, recording_epoch);
-                let params = self.sc.parameters();
+                let params = self.registration_parameters(recording_epoch);
                 let seed = self.sc.seed ^ self.sc.run.wrapping_mul(0x9E37);
                 let entry = self.keys.entry((*party, recording_epoch)).or_default();
                 if entry.is_empty() || *new_key {
@@ -769,6 +806,20 @@ impl World {
                 self.restarts_at.push(self.step);
                 self.hit("fault_restart_between_events");
                 ok(String::new())
+            }
+            Event::Reconfigure { k, m, phi_f } => {
+                let new = ProtocolParameters { k: *k, m: *m, phi_f: *phi_f };
+                if self.agg.settings.protocol_parameters == new {
+                    return skip("same parameters");
+                }
+                self.stop_aggregator();
+                self.agg.settings.protocol_parameters = new;
+                if let Err(e) = self.start_aggregator() {
+                    return ok(format!("restart FAILED: {e:#}"));
+                }
+                self.restarts_at.push(self.step);
+                self.hit("fault_restart_with_other_protocol_parameters");
+                ok(format!("configuration now k={k} m={m} phi_f={phi_f}"))
             }
             Event::Genesis => {
                 if !self.agg.is_up() {
@@ -937,7 +988,7 @@ impl World {
         }) else {
             return skip("party holds no key matching the published one");
         };
-        let params = self.sc.parameters();
+        let params = key.parameters.clone();
         let sig = match key.sign(&current, &params, &message) {
             Ok(Some(sig)) => sig,
             Ok(None) => {
@@ -994,7 +1045,8 @@ impl World {
         let (epoch, _current, next) =
             self.published_signers().ok_or_else(|| anyhow::anyhow!("no epoch settings published"))?;
         anyhow::ensure!(!next.is_empty(), "no signer registered for the next epoch");
-        let params = self.sc.parameters();
+        // the genesis tool takes the epoch service's *next* protocol parameters
+        let params = self.stored_parameters(epoch).unwrap_or_else(|| self.sc.parameters());
         let avk = SignerBuilder::new(&next, &params)?.compute_aggregate_verification_key();
         let producer = CertificateGenesisProducer::new();
         let era = SupportedEra::Pythagoras;
